@@ -12,9 +12,12 @@ RULE = ('(a) small_factors(n, mf) for sampled n <= 2000 and mf in 3..9 against t
         'x~n..m / ? / * / + for x a terminal, rule, group, template argument, and inside terminals, under Earley and '
         'LALR, k in {n-1,n,n+1,mid,m-1,m,m+1}: acceptance == (n<=k<=m) and k children in order; '
         '(e) compile-structure: random nested rule bodies (depth <= 3, sequences, alternations, ? * + ~n ~n..m incl. '
-        'ranges >= 50, a fixed corpus of sharing / nesting shapes): the rules lark compiles (Grammar.compile) equal '
+        'ranges >= 50, a fixed corpus of sharing / nesting shapes, and the shared-operand family: one atom / sequence '
+        'group / 2-3-alternative group under two or three different operators): the rules lark compiles (Grammar.compile) equal '
         'Ebnf/Compile.compile_pruned up to a renaming of helper rules, alternatives in order; compile-language: '
-        'acceptance by Earley of all words up to length 5 equals the stated-count meaning of the expression. '
+        'acceptance by Earley of all words up to length 5 equals the stated-count meaning of the expression; '
+        'shared-operand: the same operand under 2-3 operators in one rule and across rules, both orders: acceptance of '
+        'every combination of 0..7 occurrences per site equals the count oracle. '
         'non-trivial = distinct (n,m) with m >= 2 / distinct (grammar,k)')
 TRUSTED_BASE = ['hand model Ebnf/Compile.v of EBNF_to_BNF (expr, rules_cache, _add_rule, _add_recurse_rule, _add_repeat_rule, '
                 '_add_repeat_opt_rule, _generate_repeats) + SimplifyRule_Visitor + unused-rule filter, tied by comparison '
@@ -382,7 +385,9 @@ def compile_stream(ctx):
     from props import C09_compile as CC
     rng = ctx.rng
     wide = 3 if ctx.widen else 1
-    exprs = list(FIXED_EXPRS) + [CC.gen_expr(rng) for _ in range(ctx.scale(70, 900) * wide)]
+    shared = CC.shared_cases(rng, ctx.scale(14, 150) * wide)
+    exprs = (list(FIXED_EXPRS) + [c[2] for c in shared if not c[5]]
+             + [CC.gen_expr(rng) for _ in range(ctx.scale(70, 900) * wide)])
     cases, meta = [], []
     for e in exprs:
         text = CC.grammar_text(e)
@@ -399,7 +404,7 @@ def compile_stream(ctx):
         cases.append('(%s, %s)' % (CC.coq_expr(e), CC.coq_rules(rs)))
         meta.append((e, text, rs))
     ctx.sample({'compile': {'grammar': meta[-1][1].split('\n')[0], 'rules': len(meta[-1][2])}})
-    bad, errs = ctx.coq_bad_indices('c09compile', CC.IMPORTS_COMPILE, 'compile_check', cases, chunk=14)
+    bad, errs = ctx.coq_bad_indices('c09compile', CC.IMPORTS_COMPILE, 'compile_check', cases, chunk=50)
     for er in errs:
         ctx.violation('correspondence:coq-eval', {'error': er}, False, er[:300])
     searched = 0
@@ -422,7 +427,8 @@ def compile_stream(ctx):
                           'compiled rules of %r differ from the model (no word up to length 6 separates them)'
                           % text.split('\n')[0])
     # the property itself at the language level, on the implementation (independent of the model)
-    sample = list(FIXED_EXPRS[:20:2]) + [m[0] for m in meta[len(FIXED_EXPRS):][:ctx.scale(10, 150) * wide]]
+    nfix = len(exprs) - ctx.scale(70, 900) * wide
+    sample = list(FIXED_EXPRS[:20:2]) + [m[0] for m in meta[nfix:][:ctx.scale(10, 150) * wide]]
     for e in sample:
         if any(x[0] == 'rep' and x[3] >= 6 for x in CC.subexprs(e)):
             continue
@@ -437,8 +443,34 @@ def compile_stream(ctx):
             ctx.violation('compile-count', {'grammar': text, 'text': w, 'expect_accept': want}, True,
                           '%r is %s but %s by the stated counts' % (w, 'rejected' if want else 'accepted',
                                                                      'matches' if want else 'does not match'))
-    # bad ranges: GrammarError in lark, AssertFail in the model
+    # shared-operand family: the same operand under 2-3 different operators (rules_cache sharing), in one rule
+    # (also compared structurally above) and across rules; acceptance for every combination of occurrence counts
     from lark import Lark
+    from lark.exceptions import UnexpectedInput
+    for label, text, spec, x, nsites, tworules in shared:
+        try:
+            p = Lark(text, parser='earley')
+        except Exception as ex:
+            ctx.violation('compile-construct', {'grammar': text, 'expect_error': False, 'error': repr(ex)[:300]}, True,
+                          'a grammar using one operand under several operators cannot be built: %r' % (ex,))
+            continue
+        nbad = 0
+        for counts, w in CC.shared_words(x, nsites, rng):
+            want = CC.spec_accepts(spec, w)
+            try:
+                p.parse(w)
+                got = True
+            except UnexpectedInput:
+                got = False
+            ctx.count('shared-operand', key=(text, w), kind=label.split(':')[0], accepted=got)
+            if got != want and nbad < 2:
+                nbad += 1
+                ctx.violation('shared-operand-count', {'grammar': text, 'text': w, 'expect_accept': want,
+                                                       'occurrences': list(counts)}, True,
+                              '%s: %r (occurrence counts %s) is %s but %s by the stated counts'
+                              % (label, w, list(counts), 'rejected' if want else 'accepted',
+                                 'matches' if want else 'does not match'))
+    # bad ranges: GrammarError in lark, AssertFail in the model
     from lark.exceptions import GrammarError
     badr = [G([('rep', S(0), 3, 2)]), G([S(1), ('star', G([('rep', S(0), 51, 50)]))])]
     terms = []
@@ -567,7 +599,10 @@ def correspond(ctx):
     # (d) operators inside terminals -------------------------------------------------------
     terminal_stream(ctx)
     # (e) the EBNF-to-BNF compilation as a whole ------------------------------------------------
+    import time
+    t0 = time.time()
     compile_stream(ctx)
+    ctx.note('streams (e) compile-structure / compile-language / shared-operand took %.1f s' % (time.time() - t0))
 
 
 def replay(ctx, case):
